@@ -483,6 +483,22 @@ func cacheOracle(r *rand.Rand, n int, tier string, infile string, checkMap, chec
 				}
 				if checkOrder {
 					cacheOrderOracle(op[0], k, st.locus, got, refKeys(refm), func(f string, a ...any) { fail(hist, f, a...) })
+					// the comparator every ordered query rests on, against the definition: compare the XOR distances
+					// (over the common length) as byte strings; a query key shorter than both keys sees equal distances
+					keys := append(refKeys(refm), st.locus)
+					for i := 0; i < len(keys) && i < 6; i++ {
+						a, b := keys[i], keys[(i*7+3)%len(keys)]
+						want := bytes.Compare(kademlia.Distance(k, a), kademlia.Distance(k, b))
+						if gotc := kademlia.DistanceCmp(k, a, b); sign(gotc) != want {
+							fail(hist, "DistanceCmp(%s, %s, %s) = %d, the distances %s and %s compare %d", hx.Hex(k), hx.Hex(a), hx.Hex(b), gotc,
+								hx.Hex(kademlia.Distance(k, a)), hx.Hex(kademlia.Distance(k, b)), want)
+							break
+						}
+						if lt := kademlia.DistanceLt(k, a, b); lt != (want < 0) {
+							fail(hist, "DistanceLt(%s, %s, %s) = %v, the distances compare %d", hx.Hex(k), hx.Hex(a), hx.Hex(b), lt, want)
+							break
+						}
+					}
 				}
 			}
 			if !checkMap {
